@@ -13,7 +13,7 @@ type TypeRef int // index into poolTypes
 
 func (t TypeRef) RT() reflect.Type { return poolTypes[t] }
 func (t TypeRef) String() string   { return poolNames[t] }
-func (t TypeRef) IsIface() bool    { return int(t) >= NT+ND }
+func (t TypeRef) IsIface() bool    { return int(t) >= NT+ND && int(t) < NT+ND+NI }
 func (t TypeRef) IsDisp() bool     { return int(t) >= NT && int(t) < NT+ND }
 func ifaceRef(k int) TypeRef       { return TypeRef(NT + ND + k) }
 
@@ -53,16 +53,21 @@ type Dep struct {
 	Optional bool
 	Builtin  int
 	Ignore   bool // param-object field tagged inject:"-"
+	Embed    bool // param-object field embedded (anonymous) next to godi.In
 }
 
 func (d Dep) String() string {
+	opt := ""
+	if d.Optional {
+		opt = "?"
+	}
 	switch d.Builtin {
 	case BContext:
-		return "ctx"
+		return "ctx" + opt
 	case BScope:
-		return "scope"
+		return "scope" + opt
 	case BProvider:
-		return "provider"
+		return "provider" + opt
 	}
 	s := d.T.String()
 	if d.Key != "" {
@@ -76,6 +81,9 @@ func (d Dep) String() string {
 	}
 	if d.Ignore {
 		s += "(ignored)"
+	}
+	if d.Embed {
+		s += "(embedded)"
 	}
 	return s
 }
